@@ -8,22 +8,22 @@ ROOT = os.path.dirname(HERE)
 # property -> (level category, technique, level text, level note, design ref)
 CHECKS = {
     "C20": ("exploration",
-            "Go race detector over concurrent workloads (reports with a gmsm frame are violations), equality of each concurrent result with its sequential counterpart, porcupine linearizability checks of recorded histories, stream-consistency monitor for concurrent Read/Write/Close",
+            "Go race detector over concurrent workloads (reports with a gmsm frame are violations), equality of each concurrent result with its sequential counterpart, porcupine linearizability checks of recorded histories, stream-consistency monitors for concurrent Read/Write/Close and for duplex traffic with an injected record fault",
             "The worker is built with -race and runs: package-level operations on separate data from 2..32 goroutines (sign/verify/encrypt/decrypt/key exchange, SM3, SM4 helpers, GCM, parse + chain verification on shared pools, PKCS#7) compared with sequential results; one shared cipher.Block under mixed Encrypt/Decrypt vs the reference; first use of the curve from 16 goroutines in fresh child processes; one Config serving up to 48 simultaneous handshakes with concurrent ticket-key rotation, shared session cache and pools; porcupine on the LRU session cache and the ticket-key register (many short histories, unique values, 10 s checker timeout = inconclusive); one connection with concurrent tagged writers, a reader and Close at a seeded instant (per-writer FIFO, no duplication, no loss before close, all calls return, Write after Close errors).",
             "Trusted: Go race detector, porcupine v1.3.0, sequential results and /verif/ref as oracles. A clean run speaks only for the interleavings produced (evidence lists goroutine counts and histories).",
             "DESIGN.md §5 C20"),
     "C08": ("fault_enumeration",
-            "attacker catalogue executed against live endpoints: misconfigured genuine stacks, a scripted reference peer without the identity, and a record-level man in the middle rewriting the cleartext flight; completion/panic monitors",
+            "attacker catalogue executed against live endpoints: misconfigured genuine stacks, a scripted reference peer without the identity, a record-level man in the middle rewriting the cleartext flight, resumption-bypass scenarios, Config.Clone copies; completion/panic monitors",
             "(1) gmtls servers/clients holding genuine certificates with wrong keys, untrusted/expired/not-yet-valid/wrong-name/swapped/RSA/P-256 certificates, client certificates with wrong key/untrusted/expired under each ClientAuth policy; (2) a well-formed reference peer whose ServerKeyExchange is over other randoms / another encryption certificate / by another key / replayed, whose CertificateVerify is by another key / over another transcript / omitted / replayed, wrong Finished, pre-master under another key; (3) a man in the middle flipping every byte (sampled for long messages in quick) of every cleartext handshake message and applying structured rewrites (suite downgrade, randoms, session id, certificate swap/drop/append, drop/duplicate message). The attacked side must return an error; after a real byte change never both sides complete; no panic on the attacked side. Both GM suites, client-auth policies, plus TLS 1.2.",
             "Trusted: ground-truth PKI, /verif/ref TLCP peer. A misconfigured attacker-side endpoint crashing on its own configuration is not judged.",
             "DESIGN.md §5 C08"),
     "C16": ("fault_enumeration",
-            "history workload over one client cache and one or two server configurations with a resumption-model oracle, passive decoding of resumed sessions under the original master secret, and an exhaustive ticket-tampering sweep through the session-state hook",
+            "history workload (scenario templates + random walks) over one client cache and one to three named server configurations (farms, Clone-made members, version caps) with a resumption-model oracle, passive decoding of resumed sessions under the original master secret, and an exhaustive ticket-tampering sweep through the session-state hook",
             "Generates histories of up to 6 connections interleaved with ticket-key rotations (keep old / replace all), suite-list, ClientAuth and ticket-enable changes and client suite changes, for GMSSL and TLS 1.2; a model classifies every connection as must-resume / must-not-resume / may from the registry of issued tickets and the live key set; both ends' DidResume must agree and match; resumed GMSSL sessions must decode under the original session's master secret; peer identity must equal the original's. Tampering: every byte position (and truncation/extension) of a ticket followed by a connection: never resumed, always a silent full handshake.",
             "Trusted: resumption model from the property text, /verif/ref TLCP decoder. 'may' connections are not judged on DidResume.",
             "DESIGN.md §5 C16"),
     "C06": ("exploration",
-            "configuration-matrix workload with a policy-model oracle, agreement / prefix-stream monitors, a passive reference GM/T 0024 decoder over the tapped wire and key log, and crypto/tls as independent peer",
+            "configuration-matrix workload with a policy-model oracle, agreement / prefix-stream monitors, a passive reference GM/T 0024 decoder over the tapped wire and key log, crypto/tls as independent peer (with client certificates), seeded write plans, a second connection per ticket-enabled configuration, Config.Clone copies",
             "Runs gmtls client/server pairs over an in-memory tapped transport for the matrix server mode x client kind x suites x preference x ClientAuth x client certificate x certificate source x tickets (GM part full-factorial in thorough), plus TLS 1.0-1.2 suites against crypto/tls in both roles; a policy model from the property text says must-complete / must-fail / unspecified; both ends must agree on ConnectionState and ExportKeyingMaterial; position-tagged payloads (to 200 KiB, seeded fragment plans, both directions concurrently) must arrive as exact prefixes; every GMSSL session is re-derived by the reference decoder (record MAC/tag under index-as-sequence-number, Finished values, ServerKeyExchange signature, pre-master recovery, plaintext equality).",
             "Trusted: policy model, /verif/ref TLCP decoder (self-consistent reading of GM/T 0024 over ref SM2/SM3/SM4, not certified), Go crypto/tls. ECDHE-SM2 completion is unspecified.",
             "DESIGN.md §5 C06"),
@@ -33,17 +33,17 @@ CHECKS = {
             "Trusted: /verif/ref TLCP record layer. Header length bytes are judged only in the black-box layer.",
             "DESIGN.md §5 C07"),
     "C15": ("fault_enumeration",
-            "scripted reference peer with one deviation per run; differential oracle against a strict reference endpoint; panic capture; logical deadlock breaker and closed-input watchdog",
+            "scripted reference peer with one deviation per run and a differential oracle against a strict reference endpoint (GMSSL); live standard-TLS handshakes whose cleartext flight is rewritten message by message (TLS 1.0-1.2); configuration-variant targets; ServerHello-legality monitor on the wire; panic capture; logical deadlock breaker and closed-input watchdog",
             "A reference GM/T 0024 client/server plays an otherwise honest handshake against the gmtls client and the GMSSL-only, auto-switch and TLS-only servers with one deviation at one step: omit/repeat, every handshake type out of turn, CCS/alerts/application data/unknown record types/SSLv2 header at every step, oversize and empty records, every truncation, handshake-length and per-byte field perturbations, certificate-list variants (RSA, single, empty, garbage, P-256), end of stream after every step, ClientHello versions 0x0000..0x0400 x suite and compression lists. Whenever the strict reference endpoint refuses the same script, gmtls must return an error, never complete, never panic, and return once its input has ended.",
             "Trusted: strict reference endpoint as the definition of 'deviates'. Scripts it completes are not judged; no-op deviations are detected per run and not judged.",
             "DESIGN.md §5 C15"),
     "C18": ("fault_enumeration",
-            "derivation catalogue per decoder executed under panic capture, per-call thread-CPU budget with a CPU-based hang watcher, and serial allocation sampling",
+            "derivation catalogue per decoder (byte edits, TLV rewrites, structure-preserving DER tree edits, depth-2 edits; recorded handshake flights through canned connections with framing-preserving message edits) executed under panic capture, per-call thread-CPU budget with a CPU-based hang watcher, and serial allocation sampling",
             "For each of ~55 decoders of untrusted bytes (incl. the 16 TLS handshake message decoders, session state and ticket decryption through the verif hooks) takes valid encodings produced by the library and derives every truncation, single-byte substitutions from {00,01,7f,80,ff,b^1,b^80} (all seven in thorough), every TLV length rewritten to {0,len-1,len+1,0x80,0x84ffffffff,0x847fffffff}, universal tag swaps, BER nesting to depth 10^4 (definite, indefinite, unterminated), empty and random inputs; each call runs in a child process with recover(), a thread-CPU budget of 2 s + 1 us/byte, and a watcher that turns 20 s of CPU in one call into a verdict; allocations are sampled serially against 64*len + 8 MiB.",
             "Trusted: Go runtime (recover, getrusage, MemStats). Bytes encoding a password-stretching iteration count are not mutated (exempt by the property).",
             "DESIGN.md §5 C18"),
     "C10": ("exploration",
-            "reference path validator over generator ground truth (no cryptography, none of gmsm's parser) compared with Verify on generated PKI topologies; every returned chain checked link by link",
+            "reference path validator over generator ground truth (no cryptography, none of gmsm's parser) compared with Verify on generated PKI topologies; every returned chain checked link by link; pools shared across queries, re-keyed CA and look-alike scenarios",
             "Generates PKI topologies (roots, re-issued/cross-signed/looping intermediates, same-name impostor keys, leaves) that are valid except for 0-4 injected faults (expired, not yet valid, non-CA, no basic constraints, path length, key usage, name constraints, corrupted signature, impostor, EKU, critical extension, missing from pool) and queries (time incl. boundary instants, host classes, usages, pool insertion order) perturbed in one dimension; Verify must return a chain exactly when the reference finds one inside the region the statement determines (32 interpretation variants must agree), and every returned chain is checked against ground truth.",
             "Trusted: generator ground truth; gmsm CreateCertificate/ParseCertificate only as the means to materialise certificates (C09). Unspecified region listed in evidence assumptions.",
             "DESIGN.md §5 C10"),
@@ -53,27 +53,27 @@ CHECKS = {
             "Trusted: ground-truth contents/keys, /verif/ref SM2 signing, encoding/asn1 mirror structures. CBC-enveloped content has no integrity protection: mutated CBC envelopes are only required not to panic.",
             "DESIGN.md §5 C17"),
     "C01": ("exploration",
-            "reference-model monitor on recorded sign/verify executions: nonce recovery k'=s(1+d)+rd, recomputation of r from GM/T 0003.2, nonce/reader-consumption monitor, differential rejection against a reference verifier and strict DER reader",
+            "reference-model monitor on recorded sign/verify executions: nonce recovery k'=s(1+d)+rd, recomputation of r from GM/T 0003.2, nonce/reader-consumption and chunking-independence monitors, differential rejection against a reference verifier and strict DER reader (also through the x509 consumer), forged-digest class for the digest-taking verifier, in-place-edit histories",
             "Signs (key class x message length x ID class x nonce stream) through Sm2Sign and PrivateKey.Sign with a recording reader; for each signature the monitor recovers the nonce the signature implies and checks (r,s) is the pair the standard prescribes, that equal reader bytes give equal signatures, that different streams never share r or nonce, that all three verifiers accept; then every single-field perturbation of valid tuples (message, ID, key, r, s, DER manglings) is given to gmsm and to the reference: gmsm must reject whatever the standard rejects.",
             "Trusted: /verif/ref SM2 (GM/T 0003.5 signature example) and the harness's strict DER reader. Retry branches (r=0, r+k=n, s=0) unreachable by sampling.",
             "DESIGN.md §5 C01"),
     "C02": ("exploration",
-            "reference decryption of every produced ciphertext + round-trip monitors over all API forms + rejection fault catalogue (byte changes, truncations, other key, ordering, invalid-curve C1) + reader-budget bounded-progress monitor",
+            "reference decryption of every produced ciphertext + round-trip monitors over all API forms + rejection fault catalogue (byte changes, truncations, other key, ordering, invalid-curve C1) + reader-budget bounded-progress, chunking-independence and forced retry-branch monitors",
             "Encrypts every plaintext length of the tier grid (thorough: 0..4096) in both orderings, raw/ASN.1/crypto.Decrypter, with recording readers; each ciphertext must open under the reference GM/T 0003.4 decryption and under gmsm; reference-made ciphertexts (incl. nonces giving short coordinates) must open under gmsm; every single-byte change / truncation / wrong key / wrong ordering / off-curve C1 consistent with [d]C1 must be rejected; Encrypt must return within 64 nonces.",
             "Trusted: /verif/ref SM2 encryption (GM/T 0003.5 example). The all-zero-KDF retry is unreachable for non-empty plaintexts.",
             "DESIGN.md §5 C02"),
     "C03": ("exploration",
-            "differential monitor against affine math/big group law and big-integer field arithmetic (white-box hooks), scripted-reader monitor for GenerateKey",
+            "differential monitor against affine math/big group law and big-integer field arithmetic (white-box hooks), constructed boundary points (zero coordinate, top of the field), scripted-reader monitor for GenerateKey with reduction-edge contents",
             "Runs Add/Double/ScalarMult/ScalarBaseMult/IsOnCurve/Params over boundary-class scalars (0..40 bytes incl. n-16..n+16 with leading zeros, multiples of n, all-ones windows) and points (incl. short coordinates, infinity, P=Q, P=-Q); field Mul/Square/Add/Sub/FromBig/ToBig over limb patterns {0,1,max-1,max}^9 (exhaustive in thorough) and op chains; GenerateKey with all-zero/all-ff/short/failing readers.",
             "Trusted: /verif/ref affine arithmetic ([n]G=O, GM/T 0003.5 examples). Scalars/points sampled by class.",
             "DESIGN.md §5 C03"),
     "C09": ("exploration",
-            "ground-truth round-trip monitor (template vs parsed fields), issuer/other-key verification monitor, reference SM2 verification of signed bytes, per-byte tamper sweep",
+            "ground-truth round-trip monitor (template vs parsed fields), issuer/other-key verification monitor, reference SM2 verification of signed bytes, byte-exact issuer / name-chaining monitor, differently-signed issuer certificates, per-byte tamper sweep",
             "Creates certificates, CSRs and CRLs (both constructors) over generated templates x signer family {SM2, RSA, P-256, P-384} x algorithm {unset, each of the family}; parses back and compares field by field with the template; verifies under issuer, under a fresh key, with the reference SM2 verifier over the raw TBS; substitutes bytes at every position (quick: every position for a tenth of the objects, sampled for the rest) and requires parse or verification failure unless signed bytes and signature integers are unchanged.",
             "Trusted: templates as ground truth, /verif/ref SM2 verify, encoding/asn1, crypto/x509 for RSA/ECDSA issuers.",
             "DESIGN.md §5 C09"),
     "C13": ("exploration",
-            "differential monitor against a reference GM/T 0003.3 key exchange for both roles + agreement monitor + hostile-ephemeral catalogue",
+            "differential monitor against a reference GM/T 0003.3 key exchange for both roles + agreement monitor + hostile-ephemeral catalogue + constructed peer ephemerals and forced all-zero-key class",
             "Runs KeyExchangeA/B over the standard's example, key/ephemeral classes with leading-zero coordinates (incl. searched short shared-point coordinates), identity lengths 0..8191 and key lengths 1..1024; K, S1, S2 of both parties must agree with each other and with the reference; off-curve or infinite peer ephemerals must yield an error.",
             "Trusted: /verif/ref key exchange (GM/T 0003.5 example K, S1, S2).",
             "DESIGN.md §5 C13"),
@@ -88,22 +88,22 @@ CHECKS = {
             "Trusted: ref PKCS#7 pad, crypto/cipher CBC, ref SM4.",
             "DESIGN.md §5 C19"),
     "C04": ("exploration",
-            "model-based trace monitor + differential reference model (SM3 transcribed from GM/T 0004) over generated inputs and op sequences",
+            "model-based trace monitor + differential reference model (SM3 transcribed from GM/T 0004) over generated inputs and op sequences, HMAC/PBKDF2 consumers incl. long series on one keyed object",
             "Runs the real sm3 package over every message length of the tier's grid, random partitions into 1..8 writes (incl. empty and buffer-recycling writes), exhaustively enumerated op sequences over {Write,Sum(nil),Sum(prefix),Sum(prefix+cap),Reset} to depth 4 (quick) / 5 (thorough) plus random traces to length 8, HMAC/PBKDF2 instantiations and multi-MiB streams; a monitor compares every observable result with a model that remembers the bytes written since Reset and an independent SM3. Held = no divergence on the executions produced.",
             "Trusted: /verif/ref SM3 (validated at start of every run against the GM/T 0004 vectors), Go crypto/hmac and x/crypto/pbkdf2. Sampling by length class, not all contents.",
             "DESIGN.md §5 C04"),
     "C05": ("exploration",
-            "differential reference-model monitor (SM4 with S-box computed from its algebraic definition) with measured S-box lane coverage; history monitor on one cipher object with canary buffers",
+            "differential reference-model monitor (SM4 with S-box computed from its algebraic definition) with measured S-box lane coverage; history monitors on one cipher object and on one reused key buffer, canary buffers",
             "Runs sm4.NewCipher Encrypt/Decrypt on structured (single-bit, all-zero/one) and random (key, block) pairs until every S-box input value was observed in every byte lane of data path and key schedule; random Encrypt/Decrypt histories on one object with dst==src and disjoint canary buffers, each step compared with the stateless reference; key lengths 0..64. Held = no divergence on the executions produced.",
             "Trusted: /verif/ref SM4 (GM/T 0002 vector and 1e6-iteration vector in setup). (key,block) space is sampled.",
             "DESIGN.md §5 C05"),
     "C11": ("exploration",
-            "differential monitor against crypto/cipher modes over the reference SM4 + canary-buffer memory-ownership monitor",
+            "differential monitor against crypto/cipher modes over the reference SM4 + canary-buffer memory-ownership monitor (incl. the IV handed to SetIV) + buffer-reuse histories",
             "Every plaintext length 0..1024 x {ECB,CBC,CFB,OFB} x (key,IV) groups (default zero IV and SetIV), inputs inside canary arrays with spare capacity {0,1,15,16,64}; ciphertext must equal the stdlib mode over the reference cipher of the PKCS#7-padded plaintext, obey the length rule, decrypt back, and no caller memory (input, key, IV, spare capacity, guard zones) may change.",
             "Trusted: ref SM4, crypto/cipher CBC/CFB/OFB, ref PKCS#7 pad. Lengths exhaustive; keys/IVs sampled.",
             "DESIGN.md §5 C11"),
     "C12": ("exploration",
-            "differential monitor against crypto/cipher GCM over the reference SM4 (and over gmsm's block / the TLS suite construction), tag-sensitivity sweep, canary buffers",
+            "differential monitor against crypto/cipher GCM over the reference SM4 (and over gmsm's block / the TLS suite construction), the suite-table record protection through the halfConn hook, tag-sensitivity sweep, canary buffers, buffer-reuse histories",
             "Exhaustive |A|x|P| grid 0..80 at |IV|=12, IV lengths 1..64, IVs with 0xff bytes, algebraically constructed IVs whose pre-counter block sits at the 32-bit wrap, inputs to 64 KiB, and a single-bit authentication sweep over key/IV/A/C; ciphertext and tag must equal standard GCM, decryption must return the plaintext of the reference ciphertext, caller memory must be untouched.",
             "Trusted: crypto/cipher generic GCM over ref SM4, pinned by the RFC 8998 A.1 vector at start of run.",
             "DESIGN.md §5 C12"),
